@@ -3,6 +3,7 @@
   (Termination of the model is by construction: every function is structurally recursive.)
 -/
 import VM.Properties.C01
+import VM.Proofs.NoPanic
 namespace VM.C06
 open VM Impl Spec
 
@@ -12,6 +13,33 @@ theorem C06_inVocabulary_no_panic (O : Oracles) (defs : String → Option Schema
     (hs : wf Cfg.repaired (fun name => (defs name).isSome) s = true) (path : String) (v : JVal) :
     (validateF Cfg.repaired {} O defs n s path v).panicked = false :=
   (C01.C01_repaired O defs hdefs n s hs path v).1
+
+/-- **No panic, every schema.** For the code as it is now (the additional-items loop with its repaired
+    bound) and for every other setting of the deviation switches: the model of the validator tree never
+    panics — whatever the schema (no vocabulary condition: empty enum or required, multipleOf ≤ 0, patterns
+    that do not compile, unknown types and formats, keywords foreign to the instance's kind), whatever the
+    instance, options, regexp engine and format registry, and whatever the amount of `$ref` fuel — provided
+    every reference that occurs resolves (an unresolvable one is the documented panic:
+    `C06_unresolvable_ref_panics`). Termination of the model is by structural recursion. -/
+theorem C06_no_panic (cfg : Cfg) (hc : cfg.addlItemsBound = false) (opts : Opts) (O : Oracles)
+    (defs : String → Option Schema) (hdefs : DefsClosed defs) (n : Nat) (s : Schema)
+    (hs : refsKnown (fun m => (defs m).isSome) s = true) (path : String) (v : JVal) :
+    (validateF cfg opts O defs n s path v).panicked = false :=
+  validateF_np cfg hc opts O defs hdefs n s hs path v
+
+/-- the code as it is, with and without the Swagger-specific options -/
+theorem C06_no_panic_asIs (opts : Opts) (O : Oracles) (defs : String → Option Schema) (hdefs : DefsClosed defs)
+    (n : Nat) (s : Schema) (hs : refsKnown (fun m => (defs m).isSome) s = true) (path : String) (v : JVal) :
+    (validateF Cfg.asIs opts O defs n s path v).panicked = false :=
+  C06_no_panic Cfg.asIs rfl opts O defs hdefs n s hs path v
+
+/-- non-vacuity: a thoroughly degenerate schema (no reference) meets the hypotheses -/
+def sDegenerate : Schema :=
+  .mk { types := ["nonsense"], format := "unknown", multipleOf := some 0, pattern := "(", minItems := some (-1),
+        required := [], addItems := .schema, addProps := .bool false, depProps := [("a", [])] }
+    none [] (some Schema.empty) [("a", Schema.empty)] [("(", Schema.empty)] none [] [Schema.empty] [] [Schema.empty, Schema.empty] (some Schema.empty)
+example : refsKnown (fun _ => false) sDegenerate = true := by decide
+example : DefsClosed C01.noDefs := by intro _ _ h; cases h
 
 def sAddlNoTuple : Schema :=
   .mk { addItems := .schema } none [] (some Schema.empty) [] [] none [] [] [] [] none
